@@ -13,12 +13,19 @@ import (
 
 //verif:config VerifC08 maxpaths=200000
 
-// VerifC08: N blocks of arbitrary writes are committed (N=2 quick, 3 thorough), then the node is
+// VerifC08: three blocks of arbitrary writes are committed, then the node is
 // rolled back to an arbitrary earlier height h (RollbackVersion) and restarted. It reports height
 // h with block h's app hash and holds exactly block h's contents; no later version can be loaded;
 // re-applying the same blocks reproduces the original app hashes and contents.
 func VerifC08() {
-	n := 2 + v.Tier()
+	n := 3
+	// keys from a small concrete set (so that tree shapes do not multiply the paths; 2 keys quick,
+	// 3 thorough), arbitrary values, set or delete, store a (either store in thorough); contents are
+	// compared at one probe key: each of the keys or an absent one
+	keys := [][]byte{{0x10}, {0x20}}
+	if v.Tier() > 0 {
+		keys = append(keys, []byte{0x30})
+	}
 	db := modelkv.NewUnorderedDB()
 	rs := mwMustOpen(db)
 	ref := mwNewRef()
@@ -26,19 +33,20 @@ func VerifC08() {
 	var ids []types.CommitID
 	var refs []mwRef
 	for i := 0; i < n; i++ {
-		b := mwBlock(1)
+		b := []mwOp{{toB: v.Tier() > 0 && v.Choice(2) == 1, del: v.Choice(2) == 1, k: keys[v.Choice(len(keys))], val: v.Bytes(1)}}
 		mwApply(rs, b)
 		ref.apply(b)
 		blocks, ids, refs = append(blocks, b), append(ids, rs.Commit()), append(refs, ref.clone())
 	}
 	h := 1 + v.Choice(n-1) // rollback target below the latest height
+	at := append(append([][]byte{}, keys...), []byte{0x15})[v.Choice(len(keys)+1)]
 	v.Assert(rs.RollbackVersion(int64(n)) != nil, "rollback-to-the-current-height-refused")
 	v.Assert(rs.RollbackVersion(int64(h)) == nil, "rollback-succeeds")
 
 	re := mwMustOpen(db)
 	got := re.LastCommitID()
 	v.Assert(got.Version == int64(h) && bytes.Equal(got.Hash, ids[h-1].Hash), "restart-reports-the-target-height-and-its-app-hash")
-	v.Assert(mwStoreAgrees(re, refs[h-1]), "restart-holds-exactly-the-target-heights-contents")
+	v.Assert(mwAgreesAt(re.GetKVStore(mwA), re.GetKVStore(mwB), refs[h-1], at), "restart-holds-exactly-the-target-heights-contents")
 	probe, _ := mwOpen(db)
 	v.Assert(probe.LoadVersion(int64(h+1)) != nil, "no-later-version-remains-loadable")
 	for _, key := range []*sdk.KVStoreKey{mwA, mwB} {
@@ -51,5 +59,5 @@ func VerifC08() {
 		id := re.Commit()
 		v.Assert(id.Version == int64(i+1) && bytes.Equal(id.Hash, ids[i].Hash), "re-applied-block-reproduces-its-app-hash")
 	}
-	v.Assert(mwStoreAgrees(re, refs[n-1]), "re-applied-blocks-reproduce-the-contents")
+	v.Assert(mwAgreesAt(re.GetKVStore(mwA), re.GetKVStore(mwB), refs[n-1], at), "re-applied-blocks-reproduce-the-contents")
 }
